@@ -69,22 +69,6 @@ Definition setdiff_range (n : nat) (b : list nat) : list nat :=
 
 Definition interior_nodes (nverts : nat) (bn : list nat) : list nat := setdiff_range nverts bn.
 
-(* Mesh3D.boundary_edges: pairs of CONSECUTIVE rows of the boundary facet columns, sorted; candidates =
-   edges of the cells behind the boundary facets; keep the candidates that occur among the pairs *)
-Definition facet_pairs (facets : list (list nat)) (bf : list nat) : list (list nat) :=
-  let m := length (hd [] facets) in
-  flat_map (fun itr => map (fun f => let c := nth f facets [] in
-                                     isort [nth itr c 0; nth ((itr + 1) mod m) c 0]) bf) (seq 0 m).
-
-Definition boundary_edges (facets edges t2e : list (list nat)) (f2t : list (list Z)) : list nat :=
-  let bf := boundary_facets f2t in
-  let B := facet_pairs facets bf in
-  let cells0 := map (fun f => Z.to_nat (nth f (nth 0 f2t []) 0%Z)) bf in
-  let cand := uniq Nat.compare (flat_map (fun row => map (fun e => nth e row 0) cells0) t2e) in
-  filter (fun g => memb lex_cmp (nth g edges []) B) cand.
-
-Definition interior_edges (nedges : nat) (be : list nat) : list nat := setdiff_range nedges be.
-
 (* side condition on a refdom slot table used by f2t_exact: entries are local vertex numbers and no two slots
    have the same vertex SET (checked by evaluation on the regenerated tables in dyn/C11Tie.v) *)
 Definition subset (a b : list nat) : bool := forallb (fun i => existsb (Nat.eqb i) b) a.
@@ -96,17 +80,19 @@ Fixpoint pairwise_distinct (l : list (list nat)) : bool :=
 Definition slots_ok (nn : nat) (indices : list (list nat)) : bool :=
   forallb (forallb (fun i => i <? nn)) indices && pairwise_distinct indices.
 
-(* facet-array assumption of boundary_edges / f2e, on the slot tables: the pairs of cyclically consecutive local
-   vertices of every facet slot (cyclic facets, hexahedra) resp. all pairs of distinct local vertices of every facet
-   slot (sorted triangular facets, tetrahedra) are edge slots of the cell *)
-Definition is_edge_slot (edge_idx : list (list nat)) (a b : nat) : bool :=
-  existsb (fun ix => subset ix [a; b] && subset [a; b] ix) edge_idx.
-Definition cyclic_pairs_ok (facet_idx edge_idx : list (list nat)) : bool :=
-  forallb (fun ix => let m := length ix in
-             forallb (fun itr => is_edge_slot edge_idx (nth itr ix 0) (nth ((itr + 1) mod m) ix 0)) (seq 0 m))
-          facet_idx.
-Definition all_pairs_ok (facet_idx edge_idx : list (list nat)) : bool :=
-  forallb (fun ix => forallb (fun a => forallb (fun b => Nat.eqb a b || is_edge_slot edge_idx a b) ix) ix) facet_idx.
+(* Mesh.boundary_edges (mesh.py 201-213): for every boundary facet f with cell c = f2t[0][f], the local edges es of c
+   whose slot is contained in a facet slot s with t2f[s][c] = f; np.unique of t2e[es][c] *)
+Definition boundary_edges (facet_idx edge_idx t2f t2e : list (list nat)) (f2t : list (list Z)) : list nat :=
+  let bf := boundary_facets f2t in
+  uniq Nat.compare
+    (flat_map (fun f =>
+       let c := Z.to_nat (nth f (nth 0 f2t []) 0%Z) in
+       flat_map (fun es =>
+         if existsb (fun s => (nth c (nth s t2f []) 0 =? f) && subset (nth es edge_idx []) (nth s facet_idx []))
+                    (seq 0 (length facet_idx))
+         then [nth c (nth es t2e []) 0] else []) (seq 0 (length edge_idx))) bf).
+
+Definition interior_edges (nedges : nat) (be : list nat) : list nat := setdiff_range nedges be.
 
 (* the whole family of tables of one mesh, as the correspondence compares them:
    facet_idx / edge_idx : refdom tables; bnd_idx : facets of the boundary refdom (for f2e); sortf : the sort flag *)
@@ -130,6 +116,6 @@ Definition derive3 (sortf : bool) (cells facet_idx edge_idx bnd_idx : list (list
   let '(fac, t2f) := build_entities sortf cells facet_idx in
   let '(edg, t2e) := build_entities true cells edge_idx in
   let f2t := build_inverse (length cells) t2f in
-  let be := boundary_edges fac edg t2e f2t in
+  let be := boundary_edges facet_idx edge_idx t2f t2e f2t in
   {| T_edges := edg; T_t2e := t2e; T_f2e := snd (build_entities true fac bnd_idx);
      T_bedges := be; T_iedges := interior_edges (length edg) be |}.
